@@ -66,7 +66,7 @@ type builder struct {
 func (b *builder) anchor() sidetree.Anchor {
 	i := b.n
 	return sidetree.Anchor{Time: uint64(1000 + 10*i), Number: uint64(5000 + i), Version: uint64(i % 3),
-		Canonical: fmt.Sprintf("cr-%d", i), Equivalent: []string{fmt.Sprintf("er-%d-a", i), fmt.Sprintf("er-%d-b", i)}}
+		Canonical: fmt.Sprintf("cr-%d", i), Equivalent: []string{fmt.Sprintf("er-%d-z", i), fmt.Sprintf("er-%d-a", i), fmt.Sprintf("er-%d-m", i)}}
 }
 
 func (b *builder) add(name, key string, typ operation.Type, suffix string, req []byte, d sidetree.Desc) {
